@@ -14,6 +14,8 @@ import RpylibModel.Proofs.C11
 import RpylibModel.Proofs.C12
 import RpylibModel.Proofs.C13
 import RpylibModel.Proofs.C14
+import RpylibModel.Proofs.C15
+import RpylibModel.Proofs.C16
 import RpylibModel.Proofs.C17
 import RpylibModel.Proofs.C18
 import RpylibModel.Proofs.C20
